@@ -36,7 +36,8 @@ type layItem struct {
 	Gap       int    `json:"gap"`
 	Long      bool   `json:"long"`
 	Nm        string `json:"nm"`
-	name      string // interface name fixed by layNames
+	name      string   // interface name fixed by layNames
+	methods   []string // method names fixed by layNames (recvsame)
 }
 type layOut struct {
 	K     string `json:"k"`
@@ -63,6 +64,9 @@ func up(s string) string { return strings.ToUpper(s[:1]) + s[1:] }
 
 // method names of an interface item
 func layMethods(it *layItem) []string {
+	if it.methods != nil {
+		return it.methods
+	}
 	if it.Short && it.ID == "c1" {
 		return []string{"F", "G"}[:it.Nmeth]
 	}
@@ -103,6 +107,16 @@ func layNames(l *layCase) {
 			continue
 		}
 		switch it.Nm {
+		case "recvsame":
+			for j := range l.Layout.Items {
+				o := &l.Layout.Items[j]
+				if j != i && o.K == "intf" && (o.Named || o.Marked) && o.Nm != "recvsame" {
+					it.methods = append([]string(nil), layMethods(o)...)
+				}
+			}
+			if it.methods == nil {
+				core.Machinery("layout: interface %s is to share its method names with another converter interface, but there is none", it.ID)
+			}
 		case "long":
 			base := layIntfName(it)
 			it.name = base + strings.Repeat("X", 40-len(base))
@@ -181,6 +195,10 @@ func layRender(l *layCase) map[string]string {
 	}
 	sb.WriteString("package p\n\n")
 	usesAux := lay.Imports == "used" || lay.Imports == "mixed"
+	if lay.Imports == "dot" {
+		// a dot import: the package's names are the file's own
+		sb.WriteString("import . \"laym/helper\"\n\n// KeepAux uses the import tokDOCaux.\nvar KeepAux = Value\n\n")
+	}
 	switch lay.Imports {
 	case "used":
 		sb.WriteString("import \"laym/helper\"\n\n")
@@ -202,6 +220,9 @@ func layRender(l *layCase) map[string]string {
 			continue
 		case "tmark":
 			fmt.Fprintf(&sb, "// TMark%s is a struct, not an interface tokDOC%s.\n// :convergen\ntype TMark%s struct {\n\tA int\n}\n\n", up(it.ID), it.ID, up(it.ID))
+			continue
+		case "vmark":
+			fmt.Fprintf(&sb, "// VMark%s is a variable, not an interface declaration tokDOC%s.\n// :convergen\nvar VMark%s interface {\n\tM(x int) string\n}\n\n", up(it.ID), it.ID, up(it.ID))
 			continue
 		case "decl":
 			if it.Doc && it.Form == "blockvar" {
@@ -281,6 +302,12 @@ func layRender(l *layCase) map[string]string {
 				if it.Trail && k == 0 {
 					tr = " // trailing tokTR" + it.ID
 				}
+				if it.Nm == "recvsame" {
+					sb.WriteString("\t// :recv rc\n")
+				}
+				if lay.Imports == "dot" && selected && k == 0 {
+					sb.WriteString("\t// :conv HelpConv X\n")
+				}
 				fmt.Fprintf(&sb, "\t%s%s\n", sig(m), tr)
 			}
 			sb.WriteString("}")
@@ -294,7 +321,7 @@ func layRender(l *layCase) map[string]string {
 		}
 	}
 	files := map[string]string{"p/setup.go": sb.String(), "p/types.go": layTypes,
-		"helper/helper.go": "package helper\n\nvar Value = 1\n", "side/side.go": "package side\n"}
+		"helper/helper.go": "package helper\n\nvar Value = 1\n\nfunc HelpConv(i int) int { return i + 1 }\n", "side/side.go": "package side\n"}
 	switch lay.Sibling {
 	case "marked":
 		files["p/sib.go"] = "package p\n\n// :convergen\ntype SibMarked interface {\n\tSibAlpha(*LayA) *LayB\n}\n"
@@ -311,8 +338,8 @@ func layRender(l *layCase) map[string]string {
 type layObs struct {
 	Items      []layOut
 	PkgDoc     bool
-	Directives []string          // forbidden leftovers
-	Problems   []string          // structural problems (unknown decls, broken interfaces...)
+	Directives []string            // forbidden leftovers
+	Problems   []string            // structural problems (unknown decls, broken interfaces...)
 	FuncsOf    map[string][]string // interface id -> generated function names
 	SibFuncs   bool
 }
@@ -336,15 +363,22 @@ func layProject(l *layCase, src []byte) (*layObs, error) {
 	}
 	// method -> interface item
 	owner := map[string]*layItem{}
+	recvOwner := map[string]*layItem{} // methods (with receiver) generated from a :recv interface
 	byDecl := map[string]*layItem{}
 	for i := range l.Layout.Items {
 		it := &l.Layout.Items[i]
 		switch it.K {
 		case "intf":
 			for _, m := range layMethods(it) {
-				owner[m] = it
+				if it.Nm == "recvsame" {
+					recvOwner[m] = it
+				} else {
+					owner[m] = it
+				}
 			}
 			byDecl[layIntfName(it)] = it
+		case "vmark":
+			byDecl["VMark"+up(it.ID)] = it
 		case "decl":
 			byDecl["Keep"+up(it.ID)] = it
 		case "tmark":
@@ -371,6 +405,26 @@ func layProject(l *layCase, src []byte) (*layObs, error) {
 		switch x := d.(type) {
 		case *ast.FuncDecl:
 			name := x.Name.Name
+			if it, ok := recvOwner[name]; ok && x.Recv != nil {
+				// generated as a method of the source type
+				o.FuncsOf[it.ID] = append(o.FuncsOf[it.ID], name)
+				doc := true
+				if it.Mdoc {
+					k := 0
+					for i, m := range layMethods(it) {
+						if m == name {
+							k = i
+						}
+					}
+					doc = docHas(x.Doc, fmt.Sprintf("tokMD%s%d", it.ID, k))
+				}
+				if n := len(o.Items); n > 0 && o.Items[n-1].K == "funcs" && o.Items[n-1].ID == it.ID {
+					o.Items[n-1].Doc = o.Items[n-1].Doc && doc
+				} else {
+					o.Items = append(o.Items, layOut{K: "funcs", ID: it.ID, Doc: doc && it.Mdoc})
+				}
+				continue
+			}
 			if it, ok := owner[name]; ok && it != nil && x.Recv == nil && name == embMethod {
 				// generated for the embedded method: belongs to the embedding interface
 				o.FuncsOf[it.ID] = append(o.FuncsOf[it.ID], name)
@@ -454,7 +508,7 @@ func layProject(l *layCase, src []byte) (*layObs, error) {
 					if it.Form == "varblock" && !strings.Contains(text, "Keep"+up(it.ID)+"B") {
 						o.Problems = append(o.Problems, "the second variable of the grouped declaration "+name+" is lost")
 					}
-				case "tmark":
+				case "tmark", "vmark":
 					o.Items = append(o.Items, layOut{K: "decl", ID: it.ID, Doc: docHas(x.Doc, "tokDOC"+it.ID)})
 				case "intf":
 					ts := sp.(*ast.TypeSpec)
